@@ -1,12 +1,15 @@
 import HranoModel.Lemmas.Walk
+import HranoModel.Lemmas.Next
 import HranoModel.Model.Options
 /-!
 C06 — date range selection is exact, inclusive and independent of layout and time zone.
 
 Property theorems only (helper lemmas: `Lemmas/Walk.lean`).  Instants are integers (ns since the
 epoch); a heading parsed with a date-only layout is a UTC midnight.  Not modelled: `naturaldate`
-free-text dates, DST transitions; the correctness of the day count itself (`Date.toDays/ofDays`)
-is validated by the `date` correspondence, not proved.
+free-text dates, DST transitions.  The day count behind the instants (`Date.toDays`) is proved to advance by
+exactly one per calendar day (`day_count_advances`), so comparing instants is comparing calendar days and
+`yesterday` is the previous calendar day; that the count agrees with Go's `time` package at its origin is
+validated by the `date` correspondence.
 -/
 namespace Hrano.C06
 open Hrano Hrano.App Hrano.Options
@@ -40,6 +43,21 @@ theorem keywords (now : Int) (l : Layout) :
     ∧ timeFromString now l kwLast30 = .ok (now - 30 * Date.nsPerDay) := by
   refine ⟨?_, ?_, ?_, ?_⟩ <;> simp [timeFromString, kwToday, kwYesterday, kwLast7, kwLast30]
 
+/-- **the day count advances by exactly one per calendar day** (month ends, leap days, century rules, year ends and
+    the 400-year era included): instants of consecutive calendar days are exactly one day apart, so the order of the
+    instants is the order of the calendar and no day is skipped or counted twice -/
+theorem day_count_advances (c : Civil) (hm1 : 1 ≤ c.m) (hm2 : c.m ≤ 12) (hd1 : 1 ≤ c.d) (hd2 : c.d ≤ Date.daysIn c.m c.y) :
+    Date.toDays (Date.next c) = Date.toDays c + 1 ∧ Date.instant (Date.next c) = Date.instant c + Date.nsPerDay
+    ∧ (1 ≤ (Date.next c).m ∧ (Date.next c).m ≤ 12 ∧ 1 ≤ (Date.next c).d ∧ (Date.next c).d ≤ Date.daysIn (Date.next c).m (Date.next c).y) :=
+  ⟨Date.toDays_next c hm1 hm2 hd1 hd2, Date.instant_next c hm1 hm2 hd1 hd2, Date.next_valid c hm1 hm2 hd1 hd2⟩
+
+/-- `yesterday` against the day after `c` is `c`: the keyword is the previous *calendar* day -/
+theorem yesterday_is_previous_day (c : Civil) (l : Layout) (hm1 : 1 ≤ c.m) (hm2 : c.m ≤ 12) (hd1 : 1 ≤ c.d) (hd2 : c.d ≤ Date.daysIn c.m c.y) :
+    timeFromString (Date.instant (Date.next c)) l kwYesterday = .ok (Date.instant c) := by
+  rw [(keywords (Date.instant (Date.next c)) l).2.1, Date.instant_next c hm1 hm2 hd1 hd2]
+  congr 1
+  omega
+
 /-- **`summary today` selects exactly today's headings in every time zone.**  `n` is the day number of
     `--today` (a UTC midnight), `off` the zone offset in ns (|off| < 24h); the day is read off in
     that zone (`x`), the window is `[x 00:00, x 24:00)` in that zone; a log day `y` (a UTC midnight)
@@ -62,5 +80,7 @@ theorem summary_date_selects_day (d y : Int) :
 /-! non-vacuity -/
 example : inInterval (some 5) (some 5) 5 = true := by decide
 example : floorDiv (18652 * Date.nsPerDay + (-18000 * 1000000000)) Date.nsPerDay = 18651 := by decide
+example : Date.next ⟨2000, 2, 29⟩ = ⟨2000, 3, 1⟩ ∧ Date.next ⟨1900, 2, 28⟩ = ⟨1900, 3, 1⟩ ∧ Date.next ⟨2021, 12, 31⟩ = ⟨2022, 1, 1⟩
+    ∧ Date.toDays ⟨1970, 1, 1⟩ = 0 := by decide
 
 end Hrano.C06
